@@ -253,7 +253,7 @@ PROPS["C01"] = {'claimed': True,
          'GAP replies ready / in-ring / not-ready / slave / wrong source / wrong destination / status != Ok), rings of 3..4 known stations whose '
          'successor vanishes and returns, re-claims after the other masters died (GAP cursor mid-sweep / waiting), short TTR with applications that never decline / whose '
          'requests time out after another application declined, PHY busy longer than the predicted transmission with successors answering late, replies that break off after their first bytes, masters that die in the middle of '
-         'a token telegram; every case runs '
+         'a token telegram, min_tsdr_bits 11 (two thirds) / 12 / 20 / 60 / 97 / 150 / 255, max_retry 1..15, TTR up to the builder maximum; every case runs '
          'under a wall-clock watchdog (TIMEOUT); non-trivial = polls that transmit, accept a token, deliver a reply / time-out or run a GAP branch',
  'trusted_base': ['hand model coq/Model/Fdl.v of src/fdl/active.rs (all of it: states, legality assertions, poll_inner branch for branch), on top of '
                   "Telegram.v / Phy.v / TokenRing.v / Params.v; tied by differential execution poll by poll on this run's histories (all outputs, "
@@ -295,7 +295,7 @@ PROPS["C05"] = {'claimed': True,
          'GAP replies ready / in-ring / not-ready / slave / wrong source / wrong destination / status != Ok), rings of 3..4 known stations whose '
          'successor vanishes and returns, re-claims after the other masters died (GAP cursor mid-sweep / waiting), short TTR with applications that never decline / whose '
          'requests time out after another application declined, PHY busy longer than the predicted transmission with successors answering late, replies that break off after their first bytes, masters that die in the middle of '
-         'a token telegram; every case runs '
+         'a token telegram, min_tsdr_bits 11 (two thirds) / 12 / 20 / 60 / 97 / 150 / 255, max_retry 1..15, TTR up to the builder maximum; every case runs '
          'under a wall-clock watchdog (TIMEOUT); non-trivial = polls that transmit, accept a token, deliver a reply / time-out or run a GAP branch',
  'trusted_base': ['hand model coq/Model/Fdl.v of src/fdl/active.rs (all of it: states, legality assertions, poll_inner branch for branch), on top of '
                   "Telegram.v / Phy.v / TokenRing.v / Params.v; tied by differential execution poll by poll on this run's histories (all outputs, "
@@ -336,7 +336,7 @@ PROPS["C06"] = {'claimed': True,
          'GAP replies ready / in-ring / not-ready / slave / wrong source / wrong destination / status != Ok), rings of 3..4 known stations whose '
          'successor vanishes and returns, re-claims after the other masters died (GAP cursor mid-sweep / waiting), short TTR with applications that never decline / whose '
          'requests time out after another application declined, PHY busy longer than the predicted transmission with successors answering late, replies that break off after their first bytes, masters that die in the middle of '
-         'a token telegram; every case runs '
+         'a token telegram, min_tsdr_bits 11 (two thirds) / 12 / 20 / 60 / 97 / 150 / 255, max_retry 1..15, TTR up to the builder maximum; every case runs '
          'under a wall-clock watchdog (TIMEOUT); non-trivial = polls that transmit, accept a token, deliver a reply / time-out or run a GAP branch',
  'trusted_base': ['hand model coq/Model/Fdl.v of src/fdl/active.rs (all of it: states, legality assertions, poll_inner branch for branch), on top of '
                   "Telegram.v / Phy.v / TokenRing.v / Params.v; tied by differential execution poll by poll on this run's histories (all outputs, "
@@ -364,7 +364,7 @@ PROPS["C11"] = {'claimed': True,
          'GAP replies ready / in-ring / not-ready / slave / wrong source / wrong destination / status != Ok), rings of 3..4 known stations whose '
          'successor vanishes and returns, re-claims after the other masters died (GAP cursor mid-sweep / waiting), short TTR with applications that never decline / whose '
          'requests time out after another application declined, PHY busy longer than the predicted transmission with successors answering late, replies that break off after their first bytes, masters that die in the middle of '
-         'a token telegram; every case runs '
+         'a token telegram, min_tsdr_bits 11 (two thirds) / 12 / 20 / 60 / 97 / 150 / 255, max_retry 1..15, TTR up to the builder maximum; every case runs '
          'under a wall-clock watchdog (TIMEOUT); non-trivial = polls that transmit, accept a token, deliver a reply / time-out or run a GAP branch',
  'trusted_base': ['hand model coq/Model/Fdl.v of src/fdl/active.rs (all of it: states, legality assertions, poll_inner branch for branch), on top of '
                   "Telegram.v / Phy.v / TokenRing.v / Params.v; tied by differential execution poll by poll on this run's histories (all outputs, "
@@ -392,7 +392,7 @@ PROPS["C12"] = {'claimed': True,
          'GAP replies ready / in-ring / not-ready / slave / wrong source / wrong destination / status != Ok), rings of 3..4 known stations whose '
          'successor vanishes and returns, re-claims after the other masters died (GAP cursor mid-sweep / waiting), short TTR with applications that never decline / whose '
          'requests time out after another application declined, PHY busy longer than the predicted transmission with successors answering late, replies that break off after their first bytes, masters that die in the middle of '
-         'a token telegram; every case runs '
+         'a token telegram, min_tsdr_bits 11 (two thirds) / 12 / 20 / 60 / 97 / 150 / 255, max_retry 1..15, TTR up to the builder maximum; every case runs '
          'under a wall-clock watchdog (TIMEOUT); non-trivial = polls that transmit, accept a token, deliver a reply / time-out or run a GAP branch',
  'trusted_base': ['hand model coq/Model/Fdl.v of src/fdl/active.rs (all of it: states, legality assertions, poll_inner branch for branch), on top of '
                   "Telegram.v / Phy.v / TokenRing.v / Params.v; tied by differential execution poll by poll on this run's histories (all outputs, "
@@ -463,7 +463,7 @@ PROPS["C13"] = {'claimed': False,
          'GAP replies ready / in-ring / not-ready / slave / wrong source / wrong destination / status != Ok), rings of 3..4 known stations whose '
          'successor vanishes and returns, re-claims after the other masters died (GAP cursor mid-sweep / waiting), short TTR with applications that never decline / whose '
          'requests time out after another application declined, PHY busy longer than the predicted transmission with successors answering late, replies that break off after their first bytes, masters that die in the middle of '
-         'a token telegram; every case runs '
+         'a token telegram, min_tsdr_bits 11 (two thirds) / 12 / 20 / 60 / 97 / 150 / 255, max_retry 1..15, TTR up to the builder maximum; every case runs '
          'under a wall-clock watchdog (TIMEOUT); non-trivial = polls that transmit, accept a token, deliver a reply / time-out or run a GAP branch',
  'trusted_base': ['hand model coq/Model/Fdl.v of src/fdl/active.rs (all of it: states, legality assertions, poll_inner branch for branch), on top of '
                   "Telegram.v / Phy.v / TokenRing.v / Params.v; tied by differential execution poll by poll on this run's histories (all outputs, "
@@ -496,7 +496,7 @@ PROPS["C15"] = {'claimed': False,
          'GAP replies ready / in-ring / not-ready / slave / wrong source / wrong destination / status != Ok), rings of 3..4 known stations whose '
          'successor vanishes and returns, re-claims after the other masters died (GAP cursor mid-sweep / waiting), short TTR with applications that never decline / whose '
          'requests time out after another application declined, PHY busy longer than the predicted transmission with successors answering late, replies that break off after their first bytes, masters that die in the middle of '
-         'a token telegram; every case runs '
+         'a token telegram, min_tsdr_bits 11 (two thirds) / 12 / 20 / 60 / 97 / 150 / 255, max_retry 1..15, TTR up to the builder maximum; every case runs '
          'under a wall-clock watchdog (TIMEOUT); non-trivial = polls that transmit, accept a token, deliver a reply / time-out or run a GAP branch',
  'trusted_base': ['hand model coq/Model/Fdl.v of src/fdl/active.rs (all of it: states, legality assertions, poll_inner branch for branch), on top of '
                   "Telegram.v / Phy.v / TokenRing.v / Params.v; tied by differential execution poll by poll on this run's histories (all outputs, "
@@ -712,7 +712,7 @@ PROPS["C07"] = {'claimed': True,
                'C07_slave_retry_detection (Slave.v: FCV=1 with the stored bit => stored response, state unchanged; otherwise processed and stored; '
                'FCV=0/FCB=1 resets), one-step C07_offline_reported, C07_reply_never_counts. The monitor DpOracle.c07_monitor (bound max_retry+16 '
                'completed cycles, class DpOracle.c07_known_f15) runs on every implementation transcript with a fault-free tail.',
- 'partial_gap': 'All planned C07 theorems are proved. Scope notes: (a) the joint system has ONE peripheral driven at the Peripheral level; the composition '
+ 'partial_gap': 'All planned C07 theorems are proved. Slaves that stay "station not ready" for more than 2 diagnostics polls after Chk_Cfg (ready delay 3..8 in the generated fault-free tails, with max_retry 1..3) are OUTSIDE theorem C07_recovery: they are covered by correspondence and by the executable monitors DpOracle.c07_monitor_slow (bound max_retry+16+2*delay cycles) and c07_no_offline_monitor (no Offline event for a healthy, answering station after the first max_retry+4 cycles of the tail) only. Scope notes: (a) the joint system has ONE peripheral driven at the Peripheral level; the composition '
                 'with DpMaster slot iteration / global-control telegrams for several peripherals is not part of C07_recovery (C14 covers the cycle '
                 'structure; the monitor checks the multi-peripheral case on implementation transcripts). (b) The bound max_retry + 11 is proved for slave '
                 'ready delays <= 2 diagnostics cycles (the generator range); larger delays lengthen recovery by the delay and are outside the theorem. '
@@ -840,7 +840,7 @@ PROPS["C14"] = {'claimed': True,
  'assumptions': ['histories = arbitrary callback lists; C14_contract_safe additionally assumes the FdlApplication contract (C15)',
                  'max_retry_limit >= 1 for C14_lifecycle (ParametersBuilder allows 1..15)',
                  'peripheral set fixed during a history; fresh peripherals (Peripheral::new) or any start state satisfying the stated invariant'],
- 'partial_gap': 'add() during a history is not covered (the peripheral set is fixed; the executable monitor marks such cycles and does not judge '
+ 'partial_gap': 'HighPrioOnly is varied per transmit call by the harness; the rule "a master that is not stopped returns None without cycle_completed and without a peripheral event only as the call that closes a cycle completed by the preceding reply" (DpOracle.c14_silent_none_monitor, oracle turn_skipped_on_high_prio) is monitored on the implementation, it is not part of Proofs/DpOracleSound.v. add() during a history is not covered (the peripheral set is fixed; the executable monitor marks such cycles and does not judge '
                 'them either). "Retransmission" is stated as: same frame count bit, same slot, at most 1+max_retry per turn - that the bytes repeat '
                 'is C08 (and not true of Data_Exchange when the user rewrites pi_q between retries). Freedom from the other panic sites (u8 index '
                 'for > 256 slots, Instant overflow, transmit buffer too small) is C05; theorems are stated up to a panic.'}
@@ -857,7 +857,7 @@ PROPS["C13"] = {'claimed': True,
          'GAP replies ready / in-ring / not-ready / slave / wrong source / wrong destination / status != Ok), rings of 3..4 known stations whose '
          'successor vanishes and returns, re-claims after the other masters died (GAP cursor mid-sweep / waiting), short TTR with applications that never decline / whose '
          'requests time out after another application declined, PHY busy longer than the predicted transmission with successors answering late, replies that break off after their first bytes, masters that die in the middle of '
-         'a token telegram; every case runs '
+         'a token telegram, min_tsdr_bits 11 (two thirds) / 12 / 20 / 60 / 97 / 150 / 255, max_retry 1..15, TTR up to the builder maximum; every case runs '
          'under a wall-clock watchdog (TIMEOUT); non-trivial = polls that transmit, accept a token, '
          'deliver a reply / time-out or run a GAP branch',
  'trusted_base': ['hand model coq/Model/Fdl.v of src/fdl/active.rs (all of it: states, legality assertions, poll_inner branch for branch), on top of '
@@ -912,7 +912,7 @@ PROPS["C15"] = {'claimed': True,
          'GAP replies ready / in-ring / not-ready / slave / wrong source / wrong destination / status != Ok), rings of 3..4 known stations whose '
          'successor vanishes and returns, re-claims after the other masters died (GAP cursor mid-sweep / waiting), short TTR with applications that never decline / whose '
          'requests time out after another application declined, PHY busy longer than the predicted transmission with successors answering late, replies that break off after their first bytes, masters that die in the middle of '
-         'a token telegram; every case runs '
+         'a token telegram, min_tsdr_bits 11 (two thirds) / 12 / 20 / 60 / 97 / 150 / 255, max_retry 1..15, TTR up to the builder maximum; every case runs '
          'under a wall-clock watchdog (TIMEOUT); non-trivial = polls that transmit, accept a token, '
          'deliver a reply / time-out or run a GAP branch',
  'trusted_base': ['hand model coq/Model/Fdl.v of src/fdl/active.rs (all of it: states, legality assertions, poll_inner branch for branch), on top of '
@@ -1168,3 +1168,8 @@ PROPS["C07"]["partial_gap"] = PROPS["C07"]["partial_gap"].replace(
 assert "composition with DpMaster slot iteration" not in PROPS["C07"]["partial_gap"]
 assert "is not covered (fixed peripheral set)" not in PROPS["C04"]["partial_gap"]
 assert "does not judge them either" not in PROPS["C14"]["partial_gap"]
+#  C02 "whenever the set of online stations stops changing ... every station's list equals the set of online stations": the
+#      bus driver tags the window after the last disturbance (station stop / restart / corruption) C06; agreement of ring and
+#      ring views with the final population there is C02's claim too.  A panicking poll never passes the token on (C13).
+PROPS["C02"]["also"] = [("C06", "views"), ("C06", "rotation")]
+PROPS["C13"]["also"] = list(PROPS["C13"].get("also", [])) + [("C05", "panic")]
